@@ -16,6 +16,7 @@ import (
 )
 
 type c01Req struct {
+	cancel   context.CancelFunc
 	id       int
 	kind     string // obtain | renew | manage
 	async    bool
@@ -197,7 +198,7 @@ func c01Events(r *c01Req, ops []vOp, calls []vIssueCall, foreignWrites []int64) 
 func c01Spellings(rng *rand.Rand) []string {
 	fams := [][]string{
 		{"example.com", "Example.COM", " example.com ", "EXAMPLE.com"},
-		{"xn--bcher-kva.example", "bücher.example", "Bücher.Example", "XN--BCHER-KVA.example", " bücher.example"},
+		{"xn--bcher-kva.example", "bücher.example", "Bücher.Example", "XN--BCHER-KVA.example", " bücher.example", "BÜCHER.EXAMPLE"},
 		{"*.wild.example.org", "*.Wild.Example.ORG", "*.wild.example.org "},
 		{"sub.例え.test", "sub.xn--r8jz45g.test", "SUB.xn--r8jz45g.TEST"},
 		{"*.xn--bcher-kva.example", "*.bücher.example", "*.Bücher.Example ", "*.XN--BCHER-KVA.EXAMPLE"},
@@ -234,6 +235,15 @@ func c01Scenario(t *testing.T, o *vOut, seed int64, maxN, scIdx int) {
 		storeFaultAt = 1 + rng.Intn(4)
 	}
 	useFiles := rng.Intn(4) == 0
+	// leader failure by cancellation: the context of one request ends while it is inside the
+	// issuer (its release must still happen, and the others must take over)
+	cancelReq := 0
+	if rng.Intn(4) == 0 {
+		cancelReq = 1 + rng.Intn(n)
+	}
+	// issuances that outlast the staleness threshold of the file lock (the holder's heartbeat
+	// must keep its lock file fresh)
+	longIssue := useFiles && rng.Intn(2) == 0
 	var dir string
 	if useFiles {
 		dir = t.TempDir()
@@ -312,7 +322,15 @@ func c01Scenario(t *testing.T, o *vOut, seed int64, maxN, scIdx int) {
 			nCalls++
 			k := nCalls
 			dmu.Unlock()
-			time.Sleep(time.Duration(50+rand.New(rand.NewSource(seed+int64(k))).Intn(2000)) * time.Millisecond)
+			lat := time.Duration(50+rand.New(rand.NewSource(seed+int64(k))).Intn(2000)) * time.Millisecond
+			if longIssue {
+				lat = time.Duration(11+rand.New(rand.NewSource(seed+int64(k))).Intn(30)) * time.Second
+			}
+			time.Sleep(lat)
+			if cs := iss.Calls(); cancelReq != 0 && n-1 < len(cs) && cs[n-1].Req == cancelReq {
+				reqs[cancelReq-1].cancel()
+				return context.Canceled
+			}
 			if k <= failFirst {
 				return fmt.Errorf("verif: issuer down (call %d)", k)
 			}
@@ -342,7 +360,10 @@ func c01Scenario(t *testing.T, o *vOut, seed int64, maxN, scIdx int) {
 			go func() {
 				defer wg.Done()
 				time.Sleep(time.Duration(delays[r.id].Intn(3000)) * time.Millisecond) // arrival
-				ctx := vWithReq(context.Background(), r.id)
+				// (the deadline only turns a hang into an error that can be reported)
+				ctx, cancel := context.WithTimeout(vWithReq(context.Background(), r.id), 12*time.Hour)
+				defer cancel()
+				r.cancel = cancel
 				var err error
 				switch {
 				case r.kind == "obtain" && !r.async:
